@@ -59,6 +59,18 @@ def covering_handlers(prog, f, pm, node):
                 out.append((h, handler_names(prog, f.module, h, f.cls)))
         cur = anc
         anc = pm.get(anc)
+    # a decorator of the program whose wrapper calls the function inside a
+    # try: its handlers cover every site of the function
+    w = prog.wrapper_of(f)
+    if w is not None:
+        wnode, pname = w
+        for t in ast.walk(wnode):
+            if isinstance(t, ast.Try) and any(
+                    isinstance(c, ast.Call) and isinstance(c.func, ast.Name)
+                    and c.func.id == pname
+                    for b in t.body for c in ast.walk(b)):
+                for h in t.handlers:
+                    out.append((h, handler_names(prog, f.module, h, None)))
     return out
 
 
